@@ -242,7 +242,12 @@ def run_jobs(jobs, timeout=1500):
             raise vlib.ToolError("driver makes no progress (every job skipped)")
         todo = nxt
     if todo:
-        raise vlib.ToolError("driver jobs left over after 20 rounds")
+        # every round ended in a traversal that never came back: those are reported (clause "loop"); the cases that could
+        # not be run because of them are left unjudged
+        nh = sum(1 for lst in results.values() for _, c in lst if "hang_after" in c)
+        if nh < 5:
+            raise vlib.ToolError("driver jobs left over after 20 rounds")
+        results["__left"] = []
     flat = {}
     for lst in results.values():
         for i, c in lst:
@@ -379,6 +384,8 @@ def explore(chk, st, cfg, simulate=None, depth=None, timeout=900, perturb_every=
     for i, rec in enumerate(recs):
         o = obs.get(i)
         if o is None:
+            if any("hang_after" in v for v in obs.values()):
+                continue            # not run: the driver kept hanging on other scenarios (which are reported)
             raise vlib.ToolError("no observation for scenario %d of %s" % (i, cfg))
         nruns = 1 + len(o.get("par", {})) + len(o.get("pert", {}))
         chk.evaluations += nruns
